@@ -35,6 +35,9 @@ COMPONENTS = {
 }
 
 
+MAX_REPORTED = 6
+
+
 class Ctx:
     """What a check module gets."""
 
@@ -166,6 +169,7 @@ def run_check(prop, tier, seed):
             if f.startswith(prop + "-") and f.endswith(".json"):
                 os.unlink(os.path.join(paths.REPLAYS, f))
     new, printed_known, unreproduced = [], [], []
+    not_replayed = 0
     seen_sig = set()
     for v in violations:
         key = (v.get("invariant"), json.dumps(v.get("signature", {}), sort_keys=True))
@@ -178,6 +182,10 @@ def run_check(prop, tier, seed):
         if key in seen_sig:
             continue
         seen_sig.add(key)
+        if len(new) >= MAX_REPORTED:
+            # enough reproduced, minimised violations to act on; the rest are counted, not replayed
+            not_replayed += 1
+            continue
         v["property"] = prop
         p = write_replay(prop, v, seed)
         ok, out = replay_in_fresh_process(p)
@@ -196,6 +204,7 @@ def run_check(prop, tier, seed):
     cov["harness_errors"] = len(ctx.harness_errors)
     cov["harness_error_samples"] = ctx.harness_errors[:3]
     cov["unreproduced_alarms"] = unreproduced[:5]
+    cov["further_distinct_alarms_not_replayed"] = not_replayed
     cov["known_findings_matched"] = [k.get("id") for k in printed_known]
     wall = time.time() - t0
     if wall > 0:
